@@ -461,11 +461,14 @@ func cmdCheck(args []string) int {
 	for _, l := range violationLines {
 		fmt.Println(l)
 	}
-	if broken {
-		return 2
-	}
+	// a baseline obligation that now fails is reported as such even when, in
+	// addition, an anchor of the contract went stale (exit 2 = nothing failed
+	// but the check can no longer vouch for the property)
 	if nViol > 0 {
 		return 1
+	}
+	if broken {
+		return 2
 	}
 	return 0
 }
